@@ -100,7 +100,7 @@ def m_render_help(ex, c, args):
     return Opaque("help", (path, rda(args[1])))
 
 
-@tmodel("env::var_os")
+@tmodel("env::var_os", "var_os")
 def m_var_os(ex, c, args):
     name = rda(args[0])
     t = ex.str_term(name)
